@@ -499,6 +499,18 @@ def check(ctx):
                         names |= set(g_[1])
                 always = arm["body"].get("k") == "lit" and arm["body"]["lit"].get("v") is True or (arm["body"].get("k") == "block" and any(s.get("k") == "expr" and s["e"].get("k") == "lit" and s["e"]["lit"].get("v") is True for s in arm["body"]["stmts"]))
                 got[mm.group(1)] = (names, always)
+                # "a field named app, window or webview" is a statement about the member alone: the arm must not look at what the field is
+                # read off (seed C12/n: chains such as services.handles.window.emit(..) were dropped by a test on field_expr.base)
+                if mm.group(1) == "Field":
+                    binds = re.findall(r"\((\w+)\)", pt)
+                    based = sorted({x["member"] for x in walk(arm["body"]) if x.get("k") == "field" and x.get("member") in ("base", "dot_token")
+                                    and expr_text(x["base"]).lstrip("&*(").rstrip(")") in binds})
+                    if "base" in based:
+                        r2.bad(V(r2.id, "EventParser::is_likely_tauri_emitter", "field-receiver-depends-on-base",
+                                 "the Field arm inspects %s.base: whether `x.y.window.emit(..)` is an emit then depends on the chain before the member, "
+                                 "and handles reached through a longer chain lose their events" % (binds[0] if binds else "<field>")))
+                    else:
+                        r2.ok("Expr::Field: verdict is a function of the member only")
         need = {"app", "window", "webview"}
         for v in ("Path", "Field"):
             names = got.get(v, (set(), False))[0]
